@@ -12,8 +12,19 @@ import (
 )
 
 type node struct {
-	cfg  int32
-	path []evt
+	cfg    int32
+	path   []evt
+	parent [16]byte // state this node is a successor of
+	isDef  bool     // ... by that state's default event
+}
+
+// stateInfo is what the parent keeps per distinct state: a path reaching it and its default successor.
+type stateInfo struct {
+	cfg      int32
+	path     []evt
+	devs     uint8
+	defChild [16]byte
+	hasDef   bool
 }
 
 // configs lists the root configurations of a tier. VERIF_C06_CFG="n0,workers,steps,k,newState;..." overrides (development aid).
@@ -42,9 +53,11 @@ func configs(tier string) []*config {
 		}
 	}
 	return []*config{
-		mk(4, 1, 1, 2, false),
-		mk(3, 1, 2, 1, false),
-		mk(6, 2, 1, 1, true),
+		mk(4, 1, 1, 1, false), // tip-following, one reorg, <=1 deviation
+		mk(3, 1, 1, 2, false), // one reorg, <=2 deviations
+		mk(3, 1, 2, 0, false), // two reorgs, default answers, every placement of both
+		mk(6, 2, 1, 0, true),  // catch-up with 2 fetchers, new state backend
+		mk(5, 2, 0, 2, false), // catch-up with 2 fetchers, no reorg, <=2 deviations (out-of-order answers, faults)
 	}
 }
 
@@ -85,7 +98,7 @@ func TestCheck(t *testing.T) {
 		"convergence run: the source no longer changes, answers the oldest request truthfully, a minute passes whenever the configuration repeats; "+
 			"verdict 'stuck' only when the configuration repeats across a time advance (or after "+fmt.Sprint(convHorizon)+" steps)")
 
-	visited := map[[16]byte]uint8{}
+	visited := map[[16]byte]*stateInfo{}
 	counts := make([]cfgCount, len(cfgs))
 	maxK := 0
 	for i, c := range cfgs {
@@ -113,7 +126,7 @@ func TestCheck(t *testing.T) {
 			if err != nil {
 				r.Infra("%v", err)
 			}
-			var next, fresh []node
+			var next []node
 			for i := range results {
 				res := &results[i]
 				nd := frontier[i]
@@ -140,16 +153,20 @@ func TestCheck(t *testing.T) {
 					nontrivial++
 				}
 				key := h16(fmt.Sprintf("%d|%x", nd.cfg, res.key))
+				if nd.isDef {
+					if pi := visited[nd.parent]; pi != nil {
+						pi.defChild, pi.hasDef = key, true
+					}
+				}
 				if _, ok := visited[key]; ok {
 					continue
 				}
-				visited[key] = uint8(d)
+				visited[key] = &stateInfo{cfg: nd.cfg, path: nd.path, devs: uint8(d)}
 				counts[nd.cfg].states++
 				counts[nd.cfg].perDev[d]++
 				if res.depth > counts[nd.cfg].maxDepth {
 					counts[nd.cfg].maxDepth = res.depth
 				}
-				fresh = append(fresh, nd)
 				if cat := sampleCategory(res.label, nd.path); cat != "" && sampled[cat] < 1 && len(sampled) < 6 {
 					sampled[cat]++
 					r.Sample(map[string]any{"category": cat, "config": c.String(), "path": pathStrings(nd.path), "state": res.desc})
@@ -162,47 +179,113 @@ func TestCheck(t *testing.T) {
 					p := make([]evt, len(nd.path)+1)
 					copy(p, nd.path)
 					p[len(p)-1] = e
+					child := node{cfg: nd.cfg, path: p, parent: key, isDef: j == 0}
 					if cost == 0 {
-						next = append(next, node{cfg: nd.cfg, path: p})
+						next = append(next, child)
 					} else {
-						buckets[d+1] = append(buckets[d+1], node{cfg: nd.cfg, path: p})
-					}
-				}
-			}
-			// convergence run from every state seen for the first time
-			if len(fresh) > 0 && !stop {
-				cres, err := pl.run(fresh, true, r.OutOfTime)
-				if err != nil {
-					r.Infra("%v", err)
-				}
-				for i := range cres {
-					res := &cres[i]
-					if res.infra == "timeout" {
-						r.Incomplete(fmt.Sprintf("time budget hit during convergence runs at deviation level %d", d))
-						stop = true
-						continue
-					}
-					if res.infra != "" {
-						r.Infra("%s [convergence run, config %s path=%v]", res.infra, cfgs[fresh[i].cfg], pathStrings(fresh[i].path))
-					}
-					counts[fresh[i].cfg].convRuns++
-					r.Add("evaluations", 1)
-					r.Add("convergence_steps_total", int64(res.convSteps))
-					for _, v := range res.viols {
-						v.detail["deviations"] = d
-						r.Violate(v.key, v.detail)
-					}
-					if res.conv {
-						r.Outcome("convergence-run:converged")
-					} else {
-						r.Outcome("convergence-run:stuck")
+						buckets[d+1] = append(buckets[d+1], child)
 					}
 				}
 			}
 			frontier = next
 		}
 	}
-	pl.close()
+	// Convergence. The convergence policy's first move in a state is that state's default event, whose successor is
+	// itself an explored state; so the runs from all states whose default continuation enters the same terminal
+	// cycle share their suffix, and one real run per terminal cycle (from its smallest-key member) decides them all.
+	rep := map[[16]byte][16]byte{} // state -> representative of its terminal cycle (zero = unresolved)
+	var unresolved int64
+	for k0 := range visited {
+		if _, ok := rep[k0]; ok {
+			continue
+		}
+		var walk [][16]byte
+		pos := map[[16]byte]int{}
+		k := k0
+		var found [16]byte
+		for {
+			if r0, ok := rep[k]; ok {
+				found = r0
+				break
+			}
+			if i, ok := pos[k]; ok {
+				found = k
+				for _, m := range walk[i:] {
+					if string(m[:]) < string(found[:]) {
+						found = m
+					}
+				}
+				break
+			}
+			si := visited[k]
+			if si == nil || !si.hasDef {
+				break // default successor not computed (time budget) -> unresolved
+			}
+			pos[k] = len(walk)
+			walk = append(walk, k)
+			k = si.defChild
+		}
+		for _, m := range walk {
+			rep[m] = found
+		}
+	}
+	basin := map[[16]byte]int64{}
+	for k := range visited {
+		if r0 := rep[k]; r0 != ([16]byte{}) {
+			basin[r0]++
+		} else {
+			unresolved++
+		}
+	}
+	var reps []node
+	var repKeys [][16]byte
+	for k := range basin {
+		repKeys = append(repKeys, k)
+	}
+	sort.Slice(repKeys, func(i, j int) bool { return string(repKeys[i][:]) < string(repKeys[j][:]) })
+	for _, k := range repKeys {
+		reps = append(reps, node{cfg: visited[k].cfg, path: visited[k].path})
+	}
+	convDeadline := time.Now().Add(time.Duration(ev.Pick(r, 25, 180)) * time.Second)
+	cres, err := pl.run(reps, true, func() bool { return time.Now().After(convDeadline) })
+	if err != nil {
+		r.Infra("%v", err)
+	}
+	var convStates, stuckStates int64
+	for i := range cres {
+		res := &cres[i]
+		if res.infra == "timeout" {
+			r.Incomplete("time budget hit during the convergence runs")
+			unresolved += basin[repKeys[i]]
+			continue
+		}
+		if res.infra != "" {
+			r.Infra("%s [convergence run, config %s path=%v]", res.infra, cfgs[reps[i].cfg], pathStrings(reps[i].path))
+		}
+		counts[reps[i].cfg].convRuns++
+		r.Add("evaluations", 1)
+		r.Add("convergence_steps_total", int64(res.convSteps))
+		for _, v := range res.viols {
+			v.detail["states_whose_default_continuation_ends_here"] = basin[repKeys[i]]
+			r.Violate(v.key, v.detail)
+		}
+		if res.conv {
+			r.Outcome("convergence-run:converged")
+			convStates += basin[repKeys[i]]
+		} else {
+			r.Outcome("convergence-run:stuck")
+			stuckStates += basin[repKeys[i]]
+		}
+	}
+	r.Set("states_decided_converging", convStates)
+	r.Set("states_decided_stuck", stuckStates)
+	r.Set("states_convergence_undecided", unresolved)
+	if unresolved > 0 {
+		r.Incomplete(fmt.Sprintf("convergence undecided for %d states (default successor not computed within the time budget)", unresolved))
+	}
+	if err := pl.close(); err != nil {
+		r.Infra("worker process ended abnormally: %v", err)
+	}
 	var states, transitions, conv int64
 	var per []string
 	for i, c := range cfgs {
